@@ -6,6 +6,7 @@ import Rox.Parse
 import Rox.Lemmas.DocSpans
 import Rox.Lemmas.RangeOrd
 import Rox.Lemmas.Shape
+import Rox.Lemmas.RangeNest
 import Rox.Props.C01
 
 namespace Rox.Props.C13
@@ -88,5 +89,19 @@ theorem parsed_ranges_designate (txt : Bytes) (hv : ValidUtf8 txt) (opt : Opt)
     (hp : opt.positions = true) (d : Doc) (h : parse Generated.tables txt opt = .ok d) :
     ∀ (i : Nat) (n : NodeData), d.nodes[i]? = some n → Rox.Lemmas.NodeShape txt n :=
   Rox.Lemmas.parse_nodeShape Generated.tables C01.generated_tables_ok txt hv opt hp d h
+
+/-- **Nesting and order** (all valid UTF-8 inputs; `allow_dtd = false` — the default, so every node
+is written directly in the document —, `positions` on): every non-root node's range lies inside its
+parent's range, and a node's range begins at or after the end of its previous sibling's range
+(siblings' ranges are disjoint and ascending). -/
+theorem parsed_ranges_nested (txt : Bytes) (hv : ValidUtf8 txt) (opt : Opt)
+    (hdtd : opt.allowDtd = false) (hp : opt.positions = true) (d : Doc)
+    (h : parse Generated.tables txt opt = .ok d) :
+    (∀ i p, i < d.nodes.size → par d.nodes i = some p →
+      (Rox.Lemmas.rangeOf d.nodes p).1 ≤ (Rox.Lemmas.rangeOf d.nodes i).1 ∧
+      (Rox.Lemmas.rangeOf d.nodes i).2 ≤ (Rox.Lemmas.rangeOf d.nodes p).2) ∧
+    (∀ i j, i < d.nodes.size → prevSib d.nodes i = some j →
+      (Rox.Lemmas.rangeOf d.nodes j).2 ≤ (Rox.Lemmas.rangeOf d.nodes i).1) :=
+  Rox.Lemmas.parse_ranges_nested Generated.tables C01.generated_tables_ok txt hv opt hdtd hp d h
 
 end Rox.Props.C13
